@@ -3,6 +3,9 @@
 GO = "go"          # repository toolchain (1.23.5)
 GO126 = "go1.26.8"  # needed for testing/synctest (virtual clock, owned schedule)
 
+QUEUE_COMMON = {"verif_qcommon_test.go": "harness/shared/queue_common_test.go"}
+VERIFX = {"internal/verifx/errtree.go": "harness/shared/verifx/errtree.go"}
+
 CHECKS = {
     "C17": {
         "title": "address normalisation laws",
@@ -83,6 +86,10 @@ CHECKS["C16"] = {
         {"name": "endpoint", "pkg": "internal/endpoint/smtp",
          "overlay": {"verif_c16_test.go": "harness/C16/endpoint_test.go"},
          "overlay_abs": {"internal/verifx/errtree.go": "harness/shared/verifx/errtree.go"}},
+        {"name": "queue", "pkg": "internal/target/queue", "run": "^TestVerifC16", "go": GO126,
+         "overlay": dict(QUEUE_COMMON, **{"verif_c01_test.go": "harness/C01/queue_test.go", "verif_c18_test.go": "harness/C18/dsn_test.go",
+                                          "verif_c16_test.go": "harness/C16/queue_test.go"}), "overlay_abs": VERIFX,
+         "quick": {"n": 4000, "shards": 8}, "thorough": {"n": 160000, "shards": 16}},
         {"name": "reject", "pkg": "internal/msgpipeline", "run": "^TestVerifC16",
          "overlay": {"verif_c16_test.go": "harness/C16/reject_test.go"},
          "quick": {"shards": 1}, "thorough": {"shards": 1}},
@@ -161,8 +168,6 @@ CHECKS["C06"] = {
     "technique": "property-based testing (rapid) with a reference model, call-log invariants, metamorphic and differential relations",
 }
 
-QUEUE_COMMON = {"verif_qcommon_test.go": "harness/shared/queue_common_test.go"}
-VERIFX = {"internal/verifx/errtree.go": "harness/shared/verifx/errtree.go"}
 
 CHECKS["C01"] = {
     "title": "queue: exactly one terminal outcome per recipient",
